@@ -7,6 +7,11 @@ package main
 //   * for the functions the C07 model is anchored in: the storage calls (store.*, tx.*, rd.*, and calls of
 //     the anchored functions themselves) in SOURCE ORDER. The theorems `source_*` of Theorems/C07.lean
 //     decide on these lists what the model of start-up recovery and of the store-before-row order assumes.
+//   * for the anchored functions that delete cache files inside a `range` loop: the collection the loop ranges over,
+//     and for every collection of such a function the places where it GROWS (`x = append(x, ..)`, `x[k] = v`) with
+//     the conditions of the enclosing if-statements (`!cond` for an else branch). `source_cleanup_ranges_over_new`
+//     decides on them that the clean-up after a failed MessagesCreated transaction ranges over a collection that only
+//     receives messages the database did not know (the model's `handlerOf`: delete the NEW ids only).
 
 import (
 	"fmt"
@@ -161,7 +166,90 @@ func factsCrash(c *factsCtx, outdir string) error {
 		}
 		fmt.Fprintf(&b, "  (%s, %s)%s\n", leanStr(t.fn), leanStrList(calls), sep)
 	}
-	b.WriteString("]\n\nend Gluon.Facts\n")
+	b.WriteString("]\n\n")
+	// clean-up loops and growth sites
+	var loops, sites []string
+	for _, t := range crashTargets {
+		for _, f := range c.parseDir(t.dir) {
+			for _, d := range f.Decls {
+				fd, ok := d.(*ast.FuncDecl)
+				if !ok || fd.Body == nil || funcQualName(fd) != t.fn {
+					continue
+				}
+				var fnLoops []string
+				ast.Inspect(fd.Body, func(n ast.Node) bool {
+					rs, ok := n.(*ast.RangeStmt)
+					if !ok {
+						return true
+					}
+					deletes := false
+					ast.Inspect(rs.Body, func(m ast.Node) bool {
+						if ce, ok := m.(*ast.CallExpr); ok {
+							if se, ok := ce.Fun.(*ast.SelectorExpr); ok && (se.Sel.Name == "Delete" || se.Sel.Name == "DeleteUnchecked") && strings.Contains(strings.ToLower(types.ExprString(se.X)), "store") {
+								deletes = true
+							}
+						}
+						return true
+					})
+					if deletes {
+						fnLoops = append(fnLoops, types.ExprString(rs.X))
+					}
+					return true
+				})
+				if len(fnLoops) == 0 {
+					continue
+				}
+				for _, l := range fnLoops {
+					loops = append(loops, fmt.Sprintf("(%s, %s)", leanStr(t.fn), leanStr(l)))
+				}
+				var walk func(n ast.Node, guards []string)
+				walk = func(n ast.Node, guards []string) {
+					switch x := n.(type) {
+					case nil:
+						return
+					case *ast.IfStmt:
+						if x.Init != nil {
+							walk(x.Init, guards)
+						}
+						cond := types.ExprString(x.Cond)
+						walk(x.Body, append(append([]string{}, guards...), cond))
+						if x.Else != nil {
+							walk(x.Else, append(append([]string{}, guards...), "!("+cond+")"))
+						}
+						return
+					case *ast.AssignStmt:
+						for i, lhs := range x.Lhs {
+							switch l := lhs.(type) {
+							case *ast.IndexExpr:
+								sites = append(sites, fmt.Sprintf("(%s, %s, %s)", leanStr(t.fn), leanStr(types.ExprString(l.X)), leanStrList(guards)))
+							case *ast.Ident:
+								if i < len(x.Rhs) {
+									if ce, ok := x.Rhs[i].(*ast.CallExpr); ok {
+										if id, ok := ce.Fun.(*ast.Ident); ok && id.Name == "append" && len(ce.Args) > 0 && types.ExprString(ce.Args[0]) == l.Name {
+											sites = append(sites, fmt.Sprintf("(%s, %s, %s)", leanStr(t.fn), leanStr(l.Name), leanStrList(guards)))
+										}
+									}
+								}
+							}
+						}
+					}
+					// generic descent, keeping the guards
+					ast.Inspect(n, func(m ast.Node) bool {
+						if m == n || m == nil {
+							return true
+						}
+						walk(m, guards)
+						return false
+					})
+				}
+				walk(fd.Body, nil)
+			}
+		}
+	}
+	b.WriteString("/-- (function, collection) for every `range` loop of an anchored function whose body deletes cache files -/\n")
+	b.WriteString("def crashCleanupLoops : List (String × String) := [" + strings.Join(loops, ", ") + "]\n\n")
+	b.WriteString("/-- (function, collection, conditions of the enclosing if-statements) for every statement of these functions that makes a collection grow (`x = append(x, ..)`, `x[k] = v`) -/\n")
+	b.WriteString("def crashGrowthSites : List (String × String × List String) := [\n  " + strings.Join(sites, ",\n  ") + "\n]\n\nend Gluon.Facts\n")
 	return writeLean(outdir, "Crash.lean", b.String())
 }
 
